@@ -98,6 +98,23 @@ Theorem C19_decline_stale_refuted : ~ C19_decline_stale_full.
 Proof. exact c19_decline_stale_refuted. Qed.
 Print Assumptions C19_decline_stale_refuted.
 
+(* ---- however often: the evaluation of a DECLINED pull request, delivered any number of times and whatever the
+   gates answer, creates no branch and no pull request (pull requests only go from OPEN to DECLINED / MERGED), and
+   its decline handling leaves none of its w/ names *)
+Theorem C19_declined_never_creates : forall c x w p w',
+  NoDup (map pid (prs w)) -> In p (prs w) -> probot p = false -> pst p = DECLINED ->
+  step c w (EvalPR (pid p) x) = Ok w' ->
+  (forall n, In n (branches w') -> In n (branches w)) /\ c19_demote (prs w) (prs w').
+Proof. exact c19_declined_never_creates. Qed.
+Print Assumptions C19_declined_never_creates.
+
+Theorem C19_declined_clean : forall c x w p s d ts w',
+  NoDup (map pid (prs w)) -> In p (prs w) -> probot p = false -> pst p = DECLINED ->
+  psrc p = Src s -> pdst p = Dst d -> targets_for d (cascade x) = Some ts -> oc x = ODeclined ->
+  step c w (EvalPR (pid p) x) = Ok w' -> NoIntegrationBranchLeft s ts w'.
+Proof. exact c19_declined_clean. Qed.
+Print Assumptions C19_declined_clean.
+
 (* ---- merge: after the direct merge no integration branch of p is left ... *)
 Theorem C19_merge : forall c x w p s d ts w',
   NoDup (map pid (prs w)) -> In p (prs w) -> probot p = false -> psrc p = Src s -> pdst p = Dst d ->
